@@ -343,6 +343,27 @@ def run_case(case, tmpdir=None):
                                      'requires': ['sd-s110'] if tgt == 'nrf51' else []}
                     zf.writestr('manifest.json', json.dumps({'version': 2, 'files': files}))
                 bl.flash(path, [])
+            elif mode == 'internal_twice':
+                # two flashings on one Bootloader object: the first one is cut short (its flash-write is refused, or
+                # the terminate callback fires) while pages sit in the buffers; the second must behave like a first one
+                (tgt, img_a, how), (tgt2, img_b, _) = arts
+                if how == 'terminate':
+                    calls = [0]
+
+                    def term():
+                        calls[0] += 1
+                        return calls[0] >= case['terminate_at']
+                    bl.terminate_flashing_cb = term
+                try:
+                    bl._internal_flash(FlashArtifact(img_a, BTarget('cf2', tgt, 'fw', [], []), None), 1, 1)
+                    first = 'returned'
+                except Exception as e:  # noqa
+                    first = 'raised ' + type(e).__name__
+                bl.terminate_flashing_cb = None
+                case['_first'] = first
+                dev.pattern = ()           # everything is served from here on
+                dev.attempt = 0
+                bl._internal_flash(FlashArtifact(img_b, BTarget('cf2', tgt2, 'fw', [], []), None), 1, 1)
             elif mode == 'zip_sd':
                 # a release that updates the nRF51 soft device: bootloader+softdevice image, then the nRF51 firmware that
                 # needs it (and optionally an STM32 image) - one flash() call, the bootloader restarts in between
@@ -804,6 +825,45 @@ def job_sd(job):
     return p
 
 
+def job_twice(job):
+    """A flashing that is cut short while pages are buffered, then a complete one on the same Bootloader object: whole-page
+    images, so the final flash is exact (second image from the start page, nothing else touched unless the first
+    flashing had legitimately written whole batches before it was cut)."""
+    _, cases = job
+    p = Partial()
+    with tempfile.TemporaryDirectory(prefix='c12_') as td:
+        for (geo, tgt, na, how, at, nb) in cases:
+            ps, bp, fp, sp = geo
+            other = 'nrf51' if tgt == 'stm32' else 'stm32'
+            case = {'mode': 'internal_twice', 'cb': 0, 'geo': {tgt: list(geo), other: _other_geo(*geo)},
+                    'arts': [[tgt, na * ps, how], [tgt, nb * ps, None]], 'pat': [NEG] * 8 if how == 'neg' else [],
+                    'terminate_at': at}
+            obs = run_case(case, td)
+            dev = obs['dev']
+            p.case(key=('twice', tuple(geo), tgt, na, how, at, nb), outcome=('twice', case.get('_first'), obs['result'][:1]))
+            rp = {'case': {k: v for k, v in case.items() if not k.startswith('_')}}
+            if not str(case.get('_first', '')).startswith('raised'):
+                continue          # the first flashing was not cut short in this combination: nothing to judge here
+            if obs['result'] != ('returned',):
+                p.violation('twice:second_flashing_failed', 'after a flashing that ended with %s, a fault-free flashing on the '
+                            'same Bootloader object ended with %r  [case %s]' % (case['_first'], obs['result'], json.dumps(rp['case'])), rp)
+                continue
+            t = dev.t[ADDR[tgt]]
+            img_b = image_bytes(nb * ps, 1)
+            got = bytes(t.flash)
+            want_b = got[sp * ps:(sp + nb) * ps] == img_b
+            # pages outside [sp, sp + max(na, nb)) must be untouched; pages of the first image beyond the second one may hold
+            # either their old content or the first image (whole batches written before the cut)
+            lo, hi = sp * ps, (sp + max(na, nb)) * ps
+            outside_ok = got[:lo] == t.flash0[:lo] and got[hi:] == t.flash0[hi:]
+            if not want_b or not outside_ok:
+                bad = sorted(set(i // ps for i in range(len(got)) if (i < lo or i >= hi) and got[i] != t.flash0[i]))
+                p.violation('twice:flash_after_second_flashing', 'first flashing (%d pages) ended with %s, second (%d pages) returned: '
+                            'image at the start page %s, pages changed outside the image range: %r  [case %s]' % (
+                                na, case['_first'], nb, 'intact' if want_b else 'WRONG', bad[:10], json.dumps(rp['case'])), rp)
+    return p
+
+
 def _dispatch(job):
     return globals()['job_' + job[0]](job)
 
@@ -961,6 +1021,16 @@ def run(ck):
 
     sd_cases = [([50, 2, 128, 88], nsd, nfw, ws, order) for nsd in (1, 2, 5) for nfw in (1, 2, 3) for ws in (0, 1)
                 for order in (0, 1)]
+    tw = []
+    for geo in ([26, 3, 16, 4], [50, 2, 40, 10], [16, 4, 24, 6]):
+        for tgt in ('stm32', 'nrf51'):
+            for na in (1, 2, geo[1], geo[1] + 1, 2 * geo[1] + 1):
+                for nb in (1, geo[1], geo[1] + 2):
+                    tw.append((geo, tgt, na, 'neg', 0, nb))
+                    for at in (1, 2, 3):
+                        tw.append((geo, tgt, na, 'terminate', at, nb))
+    jobs.append(('twice', tw[:len(tw) // 2]))
+    jobs.append(('twice', tw[len(tw) // 2:]))
     jobs.append(('sd', sd_cases[:len(sd_cases) // 2]))
     jobs.append(('sd', sd_cases[len(sd_cases) // 2:]))
     ck.pmap(_dispatch, jobs)
